@@ -1447,3 +1447,5 @@ def run(res, facts, tier):
     c01_scope.r14_balance(res, facts)
     from . import c03_iter
     c03_iter.run_rule(res, facts, tier)
+    from . import c01_number
+    c01_number.run_c03_rule(res, facts, tier)
